@@ -145,6 +145,14 @@ fn templated(rng: &mut Rng, fopts: &FormOpts, props: &[String]) -> F {
             _ => hyb(Hyb::Exists, "v", None, un(Un::AG, un(Un::EF, var("v")))),
         }
     };
+    // near-misses that mention an enclosing variable instead of their own
+    let near_miss_other = |rng: &mut Rng, other: &str| -> F {
+        match rng.below(3) {
+            0 => hyb(Hyb::Bind, "v", None, un(Un::AG, un(Un::EF, var(other)))),
+            1 => hyb(Hyb::Bind, "v", None, un(Un::AX, var(other))),
+            _ => hyb(Hyb::Bind, "v", None, un(Un::AG, un(Un::EF, bin(Bin::Or, var(other), var("v"))))),
+        }
+    };
     let wrap = |rng: &mut Rng, inner: F, scope: &[String], small: &FormOpts, props: &[String]| -> F {
         let mut f = inner;
         for _ in 0..rng.below(3) {
@@ -178,7 +186,9 @@ fn templated(rng: &mut Rng, fopts: &FormOpts, props: &[String]) -> F {
         return bin(*rng.pick(&[Bin::And, Bin::Or, Bin::Xor, Bin::Imp]), a, b);
     }
     let all_scope: Vec<String> = names[..scopes].iter().map(|s| s.to_string()).collect();
-    let mut f = pattern(rng);
+    let use_other = scopes > 0 && rng.chance(1, 4);
+    let other_idx = if scopes > 0 { rng.below(scopes) } else { 0 };
+    let mut f = if use_other { near_miss_other(rng, names[other_idx]) } else { pattern(rng) };
     if rng.chance(1, 4) {
         f = bin(*rng.pick(&[Bin::And, Bin::Or, Bin::Xor]), f, pattern(rng));
     }
